@@ -92,9 +92,12 @@ enum Color { RED REB REC GREEN }
 directive @tag on FIELD
 directive @note on FIELD
 directive @mark on FIELD
+directive @range(min: Int, max: Int, mid: Int, mip: Int, miq: Int, mir: Int) on FIELD | QUERY | FRAGMENT_SPREAD
 `
 
 var detDocs = []string{
+	// a misspelt argument of a DIRECTIVE whose definition declares several arguments at the same distance
+	`{ dog { name @range(mix: 3) } }`, `{ dog { name @range(mi: 1) barks @range(mxx: 1, mii: 2) } }`, `query Q @range(mis: 1) { dog { name } ...F @range(mit: 2) } fragment F on Query { dog { barks @range(ma: 1, mi: 2, m: 3) } }`,
 	`fragment F on Itex { id } { ...F }`, `fragment F on Itey { id } { ...F }`, `fragment F on iTEM { id } fragment G on ItEM { id } { ...F ...G }`, `fragment F on Ite { id } { ...F }`, `fragment F on Dox { x } { ...F }`, `{ ... on item { id } }`, `query($v: Itam) { item(id: 1) { id } }`,
 	`{ item(id: 1) { namx } }`, `{ item(ix: 1) { id } }`, `{ pets { barks } }`, `{ named { barks meows } }`, `{ pets { howls } named { meows } }`,
 	`{ box(width: "wide", height: "tall") box(width: "wide", height: "tall") }`, `{ box(height: "tall", width: "wide", depth: 1, weight: 2) box(height: "tall", width: "wide", depth: 1, weight: 2) }`,
